@@ -106,6 +106,10 @@ theorem effCodes_unmasked (codes : List Int) (msk : List Bool) : effCodes false 
 @[simp] theorem effCodes_length (masked : Bool) (codes : List Int) (msk : List Bool) :
     (effCodes masked codes msk).length = codes.length := by simp [effCodes]
 
+theorem effCodes_getD (masked : Bool) (codes : List Int) (msk : List Bool) (j : Nat) (hj : j < codes.length) (d : Int) :
+    (effCodes masked codes msk).getD j d = if masked && !(msk.getD j true) then -1 else codes.getD j 0 := by
+  simp [effCodes, List.getD_eq_getElem?_getD, hj]
+
 theorem effCodes_zipIdx (masked : Bool) (codes : List Int) (msk : List Bool) :
     (effCodes masked codes msk).zipIdx =
       (List.range codes.length).map fun i => ((if masked && !(msk.getD i true) then -1 else codes.getD i 0), i) := by
